@@ -7,6 +7,7 @@ from fickling.ml import FicklingMLUnpickler
 
 _original_pickle_load = pickle.load
 _original_pickle_loads = pickle.loads
+_original_pickle_unpickler = pickle.Unpickler
 
 
 def run_hook():
@@ -30,10 +31,20 @@ def activate_safe_ml_environment(also_allow=None):
     def new_loads(data, *args, **kwargs):
         return FicklingMLUnpickler(io.BytesIO(data), also_allow=also_allow, **kwargs).load(*args)
 
+    class MLUnpickler(FicklingMLUnpickler):
+        """FicklingMLUnpickler bound to this activation's additions. Libraries such as torch do not
+        call pickle.load() for nested payloads but subclass `pickle_module.Unpickler`, so the class
+        has to be mediated as well."""
+
+        def __init__(self, *args, **kwargs):
+            kwargs.setdefault("also_allow", also_allow)
+            super().__init__(*args, **kwargs)
+
     pickle.load = new_load
     _pickle.load = new_load
     pickle.loads = new_loads
     _pickle.loads = new_loads
+    pickle.Unpickler = MLUnpickler
 
 
 def remove_hook():
@@ -41,6 +52,7 @@ def remove_hook():
     _pickle.load = _original_pickle_load
     pickle.loads = _original_pickle_loads
     _pickle.loads = _original_pickle_loads
+    pickle.Unpickler = _original_pickle_unpickler
 
 
 # Alias
